@@ -34,6 +34,8 @@ def line_options(starts, quick):
         opts.append(('ldi', s, 2))
         opts.append(('jmp', s, 3))
         opts.append(('m2', s, 4))             # macro of two 12-bit steps, each padded on its own: 4 bytes
+        opts.append(('mbytes', s, 1))         # a muted line (judged only where it does not decide: two unmuted lines still collide or not)
+        opts.append(('mbytes', s, 2))
         if 2 <= s <= 8:
             opts.append(('zorg1', s, 2))      # .org (s-2) "z1"
         if 4 <= s <= 10:
@@ -72,6 +74,8 @@ def place(lines):
             body = [('org', s, None), ('ldi', 'a', m)]
         elif kind == 'jmp':
             body = [('org', s, None), ('jmp', 0x20 + i)]
+        elif kind == 'mbytes':
+            body = [('mute',), ('org', s, None), ('data', 1, [m + j for j in range(n)]), ('unmute',)]
         elif kind == 'm2':
             body = [('org', s, None), ('m2', m & 0xFF, (m + 1) & 0xFF)]
         elif kind == 'zorg1':
@@ -107,7 +111,8 @@ def meta(tier):
                              '.org k "z1" (z1=2..9)', '.org k "z2" (z2=4..12, overlapping z1)', '.org k "z3" (z3=0..2, sharing one address with z1)', '.org 0 "z4" (z4=3..3)', 'line in an included file',
                              'predefined data block'],
                    'orders': 'all permutations (ordered tuples)'},
-        'assumptions': ['pairs involving a muted line are not generated (the statement does not say whether muted bytes occupy)'],
+        'assumptions': ['an overlap that involves a muted line is not judged (the statement does not say whether muted bytes occupy); two unmuted '
+                        'lines on one address are rejected whatever muted lines lie between or around them'],
         'floors': {'evaluations': 1000, 'nontrivial': 100, 'statuses': ['OK', 'REJECT'], 'clauses': ['disjoint-accepted', 'overlap-rejected', 'no-binary-overlap-rejected', 'no-binary-disjoint-accepted']},
         'nshards': 64,
     }
@@ -134,7 +139,7 @@ def shard(acc, tier, idx, n):
     pair_opts = line_options(range(0, 7), q)
     tri_opts = line_options(range(0, 4) if q else range(0, 7), q)
     if q:
-        tri_opts = [o for o in tri_opts if o[0] in ('bytes', 'fill', 'jmp', 'm2', 'zorg1', 'zorg3', 'zorg4', 'inc', 'predef') and not (o[0] == 'bytes' and o[2] == 2)]
+        tri_opts = [o for o in tri_opts if o[0] in ('bytes', 'fill', 'jmp', 'm2', 'mbytes', 'zorg1', 'zorg3', 'zorg4', 'inc', 'predef') and not (o[0] == 'bytes' and o[2] == 2)]
     plans = [(pair_opts, 2), (tri_opts, 3)]
     if not q:
         quad = [o for o in line_options(range(0, 4), q) if o[0] in ('bytes', 'fill', 'predef') and o[2] in (0, 2)]
